@@ -257,6 +257,69 @@ def work_stop(arg):
     return {"cov": cov, "viol": viol}
 
 
+def bystander(T, start_a, start_b, nticks_before, nticks_after):
+    """Two generator objects in one process: while B's worker sits in Event.wait(), A is started, ticks and is
+    stopped (all inside B's wait, as another thread would do it).  B was never stopped: its wait must not be
+    cut short and it goes on ticking.  -> None | message"""
+    e = env()
+    fab = world.new_fabric()
+    la = [e["udp_link"].UDPLink("127.0.0.1", 5800, "0.0.0.0", 5700)]
+    lb = [e["udp_link"].UDPLink("127.0.0.1", 5900, "0.0.0.0", 5701)]
+    A = e["clck_gen"].CLCKGen(la, clck_start=start_a, ind_period=1)
+    B = e["clck_gen"].CLCKGen(lb, clck_start=start_b, ind_period=1)
+    calls = {"A": [], "B": []}
+    A.clck_handler = lambda fn: calls["A"].append(fn)
+    B.clck_handler = lambda fn: calls["B"].append(fn)
+    st = {"phase": "B", "b_waits": 0, "a_waits": 0, "cut_short": False, "done_a": False}
+
+    def hook(event, timeout):
+        tns = int(round(timeout * 1e9))
+        if st["phase"] == "A":
+            st["a_waits"] += 1
+            if st["a_waits"] > nticks_before:
+                event.flag = True          # stop() of A arrives now
+                return True
+            world.clock.ns += tns
+            return False
+        st["b_waits"] += 1
+        if st["b_waits"] == 2 and not st["done_a"]:
+            # B is waiting: meanwhile A lives its whole life
+            st["done_a"] = True
+            event.woken = False
+            st["phase"] = "A"
+            A.start()
+            A._thread.run_body()
+            A.stop()
+            st["phase"] = "B"
+            if event.woken or event.flag:
+                st["cut_short"] = True
+                return True
+        if st["b_waits"] > 2 + nticks_after:
+            event.flag = True
+            return True
+        world.clock.ns += tns
+        return False
+
+    world.FakeEvent.wait_hook = hook
+    try:
+        B.start()
+        B._thread.run_body()
+        running_mid = B.running
+        B.stop()
+    except Exception as ex:            # noqa
+        return "exception %s: %s" % (type(ex).__name__, ex)
+    finally:
+        world.FakeEvent.wait_hook = None
+    want_b = [(start_b + k) % HYPER for k in range(1 + nticks_after + 1)]
+    want_a = [(start_a + k) % HYPER for k in range(nticks_before)]
+    if st["cut_short"]:
+        return ("generator B (started, never stopped) was woken out of its wait by stop() of another generator object: its "
+                "handler saw the frames %r, expected %r" % (calls["B"], want_b))
+    if calls["B"] != want_b or calls["A"] != want_a:
+        return "two generators in one process: A saw %r (expected %r), B saw %r (expected %r)" % (calls["A"], want_a, calls["B"], want_b)
+    return None
+
+
 def run(ctx):
     T, err = calibrate()
     c = ctx.cov
@@ -281,6 +344,13 @@ def run(ctx):
     stops = [(T, 2 if ctx.quick else 3, s, p, 1, ctx.tier) for s in (0, 2715647) for p in (1, 2)]
     for r in ctx.pmap(work_stop, stops):
         ctx.merge(r)
+    nby = 0
+    for sa, sb, nb, na in itertools.product((0, 2715647), (1000, 2715646), (0, 1, 3), (1, 2)):
+        msg = bystander(T, sa, sb, nb, na)
+        nby += 1
+        if msg:
+            ctx.violation("C09:two-generators", {"bystander": [sa, sb, nb, na], "script": [], "T": T, "start": sa, "period": 1, "links": 1}, msg)
+    c["two_generator_scenarios"] = nby
     c["script_length"] = L
     c["alphabet"] = len(A)
     c["states"] = len(c["states"]) if isinstance(c.get("states"), set) else c.get("states", 0)
@@ -311,6 +381,11 @@ def replay(ctx, case):
         return
     if abs(T2 - NOMINAL) >= 1000:
         ctx.violation("C09:period", case, "frame period is %d ns" % T2)
+    if case.get("bystander"):
+        msg = bystander(T2, *case["bystander"])
+        if msg:
+            ctx.violation("C09:two-generators", case, msg)
+        return
     cls, msg, r = check_script(script, T2, case["start"], case["period"], case["links"], case.get("eager", False))
     if cls:
         pfx = "C09:restart:" if any(s[0] == "stopwait" for s in script) else "C09:"
